@@ -503,6 +503,27 @@ def more_specific(a: RefRule, b: RefRule):
     return None
 
 
+def slash_collapse(path, t):
+    """is `t` the path with some runs of slashes shortened (each run keeps at least one slash)?"""
+    a = re.findall(r"/+|[^/]+", path)
+    b = re.findall(r"/+|[^/]+", t)
+    if len(a) != len(b):
+        return False
+    for x, y in zip(a, b):
+        if x.startswith("/"):
+            if not (y.startswith("/") and 1 <= len(y) <= len(x)):
+                return False
+        elif x != y:
+            return False
+    return True
+
+
+def merged_variants(path):
+    """candidate normalisations of a path under merge_slashes: pairs merged once (what the code does
+    today) and all runs fully collapsed"""
+    return sorted({re.sub("/{2,}?", "/", path), re.sub("/{2,}", "/", path)})
+
+
 def py_merge(path):
     return re.sub("/{2,}?", "/", path)
 
@@ -543,7 +564,7 @@ def reference_check(cfg, rules, adapter, path, method, out, ws=None, lenient_nos
 
     direct = admitting(path_part)
     direct_valid = [x for x in direct if x[2]]
-    shadow = any(not x[2] for x in admitting(path_part, True, True)) or (cfg["merge"] and any(not x[2] for x in admitting(py_merge(path_part), True, True)))
+    shadow = any(not x[2] for x in admitting(path_part, True, True)) or (cfg["merge"] and any(not x[2] for p in merged_variants(path_part) for x in admitting(p, True, True)))
     kind = out.split(" ")[0]
     if kind == "M":
         _, idx, _, vals = out.split(" ")
@@ -570,27 +591,35 @@ def reference_check(cfg, rules, adapter, path, method, out, ws=None, lenient_nos
         root = "/" + adapter["script"].strip("/")
         if not root.endswith("/"):
             root += "/"
-        targets = set()
-        if slash_candidates(path_part):
-            targets.add(path_part + "/")
-        if cfg["merge"]:
-            p2 = py_merge(path_part)
-            if any(x[2] and x[0].merge for x in admitting(p2)):
-                targets.add(p2)
-            if slash_candidates(p2):
-                targets.add(p2 + "/")
+        from urllib.parse import unquote
+
         q = url.partition("?")[0]
-        for t in targets:
-            if q == base + root + quote_path(t).lstrip("/"):
+        prefix = base + root
+        if q.startswith(prefix):
+            t = "/" + unquote(q[len(prefix):])
+            # (a) the missing final slash of a strict branch rule
+            lead = lambda p: "/" + p.lstrip("/")  # noqa: E731 - the redirect URL keeps one leading slash
+            if t == lead(path_part + "/") and slash_candidates(path_part):
                 return None
+            if cfg["merge"]:
+                # (b) the path with runs of slashes collapsed, admitted by a rule that merges slashes
+                if t != path_part and slash_collapse(path_part, t) and any(x[2] and x[0].merge for x in admitting(t)):
+                    return None
+                if any(t == lead(p) and any(x[2] and x[0].merge for x in admitting(p)) for p in merged_variants(path_part)):
+                    return None
+                # (c) ... or collapsed and lacking the final slash of a strict branch rule
+                if t.endswith("/") and slash_collapse(path_part, t[:-1]) and slash_candidates(t[:-1]):
+                    return None
+                if any(t == lead(p + "/") and slash_candidates(p) for p in merged_variants(path_part)):
+                    return None
         if any(r["defaults"] or r["alias"] for r in rules):
             return None  # defaults / alias canonicalisation: C12's subject
         # a strict branch rule whose regex accepts path + '/' while its to_python rejects the value:
         # SlashRequired is raised before any conversion (F03c)
         pre = [rr for rr in refs if rr.strict and rr.method_ok(method) and rr.r["ws"] == websocket]
-        early = any((e := rr.exact(p + "/")) is not None and not e[0] for rr in pre for p in ([path_part] + ([py_merge(path_part)] if cfg["merge"] else [])))
-        early = early or (cfg["merge"] and any(not x[2] and x[0].merge for x in admitting(py_merge(path_part))))
-        return (f"redirect to {url!r} but the rules only justify {sorted(targets)}", "redirect-before-conversion" if early else False)
+        early = any((e := rr.exact(p + "/")) is not None and not e[0] for rr in pre for p in ([path_part] + (merged_variants(path_part) if cfg["merge"] else [])))
+        early = early or (cfg["merge"] and any(not x[2] and x[0].merge for p in merged_variants(path_part) for x in admitting(p)))
+        return (f"redirect to {url!r} is not justified by a rule admitting the target", "redirect-before-conversion" if early else False)
     # not matched / not redirected
     if direct_valid:
         rr = direct_valid[0][0]
@@ -613,8 +642,9 @@ def reference_check(cfg, rules, adapter, path, method, out, ws=None, lenient_nos
         for x in admitting(path_part, False, True):
             may |= x[0].methods or set()  # incl. rules admitting before validation (visited by the search)
         if cfg["merge"]:
-            for x in admitting(py_merge(path_part), False, True):
-                may |= x[0].methods or set()
+            for p in merged_variants(path_part):
+                for x in admitting(p, False, True):
+                    may |= x[0].methods or set()
         if not may:
             return (f"MethodNotAllowed {sorted(got)} although no rule admits the path", shadow)
         if not (must <= got <= may):
@@ -622,7 +652,7 @@ def reference_check(cfg, rules, adapter, path, method, out, ws=None, lenient_nos
         return None
     if kind == "WSM":
         anything = [x for x in admitting(path_part, True, False) if x[2]]
-        if not anything and not (cfg["merge"] and admitting(py_merge(path_part), True, False)):
+        if not anything and not (cfg["merge"] and any(admitting(p, True, False) for p in merged_variants(path_part))):
             return ("WebsocketMismatch although no rule admits the path", shadow)
         return None
     return (f"unexpected outcome {out}", shadow)
@@ -847,7 +877,7 @@ class MatchStream(Stream):
         elif choice < 0.9:
             if toks and toks[-1] == "/" and len(toks) > 1:
                 toks.pop()
-            else:
+            elif not toks or toks[-1] != "/":
                 toks.append("/")
         r["methods"] = rng.choice([None, r["methods"], ["GET"], ["POST"]])
         return r
@@ -987,14 +1017,26 @@ CHECK = Check(
     gen=["Routing", "RoutingSamples"],
     modules=["WzVerif.Props.C03"],
     streams=[MatchStream(), KernelStream()],
-    assumptions=[],
-    quick_budget=2500,
+    assumptions=[
+        "model scope: one converter per rule part (the property's grammar); a part with two converters is outside the model (driver answers UNSUPPORTED, never generated); redirect_to rules and custom converters are not modelled",
+        "RulePart equality (content, final, static, suffixed, weight) is modelled as structural equality of (prefix literal, regex kind, suffix literal, final, suffixed, weight); regex text <-> kind is checked for instantiated live converters by decide (conv_samples_match_model) and behaviourally by both streams",
+        "CPython `re` on the compiled part regexes is modelled by the direct recogniser matchDyn / RKind.accepts (validated by stream part-kernels, not verified); `\\d` = the generated Unicode digit runs, `.` rejects exactly LF (generated)",
+        "int() of a digit string is unbounded in the model (CPython refuses > 4300 digits with ValueError: outside the stream's alphabet); float values are positional decimal text, Python's float<->text and float comparison at min/max are correspondence-tested only; uuid.UUID(text) = lower-casing",
+        "reference (oracle) reading of a rule: one anchored regular expression per rule built from the rule tokens + to_python validation; a branch rule ending in a path converter requires the value not to end in '/' (werkzeug's `(?<!/)`); non-strict rules admit one missing / extra final slash (a rule ending in a path converter swallows the extra slash into the value)",
+        "specificity order of the reference: exactly the documented one (literal segment beats variable; int/float before string before path for bare variable segments); the Lean theorem match_priority proves the stronger Weighting order",
+        "known finding F03: to_python runs after rule selection, ValidationError becomes NoMatch without backtracking (negation witness match_notfound_only_if_full_false; theorems assume ConvOK)",
+        "known finding F03b: the slash-less admission of a non-strict branch rule is not counted for MethodNotAllowed (negation witnesses match_notfound_any_method_full_false, match_405_full_false)",
+        "known finding F03c: SlashRequired / merged-slashes redirect is raised before to_python validation, so the redirect target can be NotFound",
+        "match_405_iff_partial additionally assumes the path is not subject to slash merging (the second pass adds the methods of rules that admit the merged path); insertion_order_irrelevant is OPEN (see Props/C03.lean)",
+    ],
+    trusted_extra=["CPython re / int / float / uuid semantics for the modelled primitives (validated by the streams, not verified)"],
+    quick_budget=8000,
     thorough_budget=30000,
 )
 
 MANIFEST = {
-    "level_text": "",
-    "level_note": "",
-    "technique": "Lean 4 proof + model/code correspondence",
+    "level_text": "Machine-checked Lean 4 theorems about an executable model of Rule compilation, StateMachineMatcher.add/update/match (same control flow: static before dynamic, weight-sorted dynamics, backtracking, slash / merged-slashes passes, conversion after selection) and MapAdapter.match, against a per-rule recogniser that is independent of all other rules: soundness, NotFound and MethodNotAllowed characterisations, priority (returned rule is specificity-minimal) for arbitrary rule lists and paths; converter regex/weight tables regenerated from the live DEFAULT_CONVERTERS and checked by decide; model tied to the code by two differential streams; an independent regex-per-rule oracle runs on the real code.",
+    "level_note": "Trusted: Lean kernel; extract.py; harness; CPython re/int/float/uuid (modelled, stream-validated). NotFound/405 theorems are _partial: they assume to_python accepts what the regex accepts (F03), count no slash-less admissions (F03b) and, for 405, no slash merging; insertion-order independence is OPEN. Known findings F03, F03b, F03c.",
+    "technique": "Lean 4 proof (induction over the nested trie, strict-weak-order proof for Weighting, decide +kernel over regenerated tables and concrete witnesses) + model/code correspondence",
     "design_ref": "DESIGN.md section 4, C03",
 }
